@@ -51,5 +51,8 @@ template<typename T> void note(T v);
 int normalize(std::string &text);
 int normalize(const std::string &text);
 int64_t scale64(int64_t v, int k);
+namespace inner { int which2(int k); }
 }
+// a decoy of the same unqualified scope and name outside ns
+namespace inner { int which2(int k); }
 #endif
